@@ -37,57 +37,42 @@ theorem facts_as_modelled :
     Gen.publicKeyInfoFields = [("Raw", "asn1.RawContent", ""), ("Algorithm", "pkix.AlgorithmIdentifier", ""), ("PublicKey", "asn1.BitString", "")] ∧
     Gen.removeSCTListReturns = "removeExtension(tbsData, OIDExtensionCTSCT)" ∧
     Gen.removeCTPoisonReturns = "BuildPrecertTBS(tbsData, nil)" ∧
-    Gen.buildPrecertTBSFirst = "data, err := removeExtension(tbsData, OIDExtensionCTPoison)" ∧
-    Gen.leafFromChainCalls = ["x509.BuildPrecertTBS(cert.RawTBSCertificate, preIssuer)"] ∧
     -- who is a pre-issuer: the CT key purpose, the row of the EKU table that maps it, and the two loops that look for it
     ctEkuOid = oidContent Gen.oidExtKeyUsageCT ∧
     Gen.ekuTableCTRows = ["{ExtKeyUsageCertificateTransparency, oidExtKeyUsageCertificateTransparency}"] ∧
-    Gen.isPreIssuerLoop = "for _, eku := range issuer.ExtKeyUsage { if eku == x509.ExtKeyUsageCertificateTransparency { return true } }" ∧
-    Gen.buildPrecertEkuLoop = "for _, eku := range preIssuer.ExtKeyUsage { if eku == ExtKeyUsageCertificateTransparency { seenCTEKU = true break } }" ∧
-    Gen.leafForEmbeddedCalls = ["x509.RemoveSCTList(cert.RawTBSCertificate)"] ∧
-    -- the authority-key-id update of BuildPrecertTBS (`akiUpdate`, `setFirst`, `eraseFirst`, `preIssuerEdit` are its transcription)
-    Gen.buildPrecertIssuerKeyIDLoop =
-      "for _, ext := range preIssuer.Extensions { if ext.Id.Equal(OIDExtensionAuthorityKeyId) { issuerKeyID = ext.Value break } }" ∧
-    Gen.buildPrecertKeyAtLoop =
-      "for i, ext := range tbs.Extensions { if ext.Id.Equal(OIDExtensionAuthorityKeyId) { keyAt = i break } }" ∧
-    Gen.buildPrecertAkiConds = ["if keyAt >= 0", "  if issuerKeyID != nil", "  else", "else if issuerKeyID != nil"] ∧
-    Gen.buildPrecertAppended = ["authKeyIDExt := pkix.Extension{ Id: OIDExtensionAuthorityKeyId, Critical: false, Value: issuerKeyID, }"] ∧
-    -- the COMPLETE list of statements that write to `tbs` (or hand out its address), each with every condition that guards it:
-    -- an additional write, a dropped one (`tbs.Raw = nil`), or one moved under another condition changes these lists
-    Gen.removeExtensionWrites =
-      ["=> var tbs tbsCertificate",
-       "=> rest, err := asn1.Unmarshal(tbsData, &tbs)",
-       "=> tbs.Extensions = append(tbs.Extensions[:extAt], tbs.Extensions[extAt+1:]...)",
-       "=> tbs.Raw = nil"] ∧
-    Gen.buildPrecertWrites =
-      ["=> var tbs tbsCertificate",
-       "=> rest, err := asn1.Unmarshal(data, &tbs)",
-       "if preIssuer != nil; => tbs.Issuer.FullBytes = preIssuer.RawIssuer",
-       "if preIssuer != nil; if keyAt >= 0; if issuerKeyID != nil; => tbs.Extensions[keyAt].Value = issuerKeyID",
-       "if preIssuer != nil; if keyAt >= 0; else of issuerKeyID != nil; => tbs.Extensions = append(tbs.Extensions[:keyAt], tbs.Extensions[keyAt+1:]...)",
-       "if preIssuer != nil; else of keyAt >= 0; if issuerKeyID != nil; => tbs.Extensions = append(tbs.Extensions, authKeyIDExt)",
-       "if preIssuer != nil; => tbs.Raw = nil"] ∧
-    -- what is marshalled and returned
-    Gen.removeExtensionMarshals = ["=> data, err := asn1.Marshal(tbs)"] ∧
-    Gen.buildPrecertMarshals = ["=> data, err = asn1.Marshal(tbs)"] ∧
-    Gen.removeExtensionData = ["=> data, err := asn1.Marshal(tbs)"] ∧
-    Gen.buildPrecertData = ["=> data, err := removeExtension(tbsData, OIDExtensionCTPoison)", "=> data, err = asn1.Marshal(tbs)"] ∧
-    Gen.removeExtensionReturns =
-      ["if err != nil; => return nil, <error>",
-       "else of err != nil; if rLen > 0; => return nil, <error>",
-       "range tbs.Extensions; if ext.Id.Equal(oid); <regenerated test on extAt>; => return nil, <error>",
-       "<regenerated test on extAt>; => return nil, <error>",
-       "if err != nil; => return nil, <error>",
-       "=> return data, nil"] ∧
-    Gen.buildPrecertReturns =
-      ["if err != nil; => return nil, <error>",
-       "if err != nil; => return nil, <error>",
-       "else of err != nil; if rLen > 0; => return nil, <error>",
-       "if preIssuer != nil; if !seenCTEKU; => return nil, <error>",
-       "if err != nil; => return nil, <error>",
-       "=> return data, nil"] := by
+    Gen.isPreIssuerSearch = "FIRST(issuer.ExtKeyUsage;==:x509.ExtKeyUsageCertificateTransparency;true;false)" ∧
+    Gen.leafFromChainCallsCanon = ["x509.BuildPrecertTBS(chain[0].RawTBSCertificate,preIssuer)"] ∧
+    Gen.leafForEmbeddedCallsCanon = ["x509.RemoveSCTList(chain[0].RawTBSCertificate)"] ∧
+    -- removeExtension and BuildPrecertTBS PATH BY PATH (extract/k_tbscanon.go): under which conditions each path is taken, every effect on
+    -- the tbsCertificate value in order (`tbs <- asn1.Unmarshal(…)`, every write `tbs.… = …`, the loop of removeExtension, `use asn1.Marshal(tbs)`),
+    -- and what is returned; error paths as the set of their conditions. Locals are resolved to what they stand for on that path, same-file
+    -- helpers are inlined, search loops / search helpers appear as FIRST(collection;key;what;default). An additional write to the TBS, a
+    -- dropped one (`tbs.Raw = nil`), one moved under another condition or behind the marshal, another argument — each changes these lists;
+    -- renames, hoists, extracted helpers, if/else ↔ early return ↔ switch do not. `akiUpdate`, `preIssuerEdit`, `removeOneGo` are their transcription.
+    Gen.removeExtensionPaths =
+      ["ERROR when ACC(-1) < 0 & ERR asn1.Unmarshal(tbsData) == nil & len(RES0 asn1.Unmarshal(tbsData)) <= 0",
+       "ERROR when ACC(-1) >= 0 & ERR asn1.Marshal(tbs) != nil & ERR asn1.Unmarshal(tbsData) == nil & len(RES0 asn1.Unmarshal(tbsData)) <= 0",
+       "ERROR when ERR asn1.Unmarshal(tbsData) != nil",
+       "ERROR when ERR asn1.Unmarshal(tbsData) == nil & len(RES0 asn1.Unmarshal(tbsData)) <= 0 (in loop over tbs.Extensions)",
+       "ERROR when ERR asn1.Unmarshal(tbsData) == nil & len(RES0 asn1.Unmarshal(tbsData)) > 0",
+       "WHEN ACC(-1) >= 0 & ERR asn1.Marshal(tbs) == nil & ERR asn1.Unmarshal(tbsData) == nil & len(RES0 asn1.Unmarshal(tbsData)) <= 0 DO tbs <- asn1.Unmarshal(tbsData) ; loop over tbs.Extensions {!ELEM.Id.Equal(oid) ::  -> next || ACC(-1) < 0 & ELEM.Id.Equal(oid) :: ACC(-1) = INDEX -> next || ACC(-1) >= 0 & ELEM.Id.Equal(oid) ::  -> error} ; tbs.Extensions = append(tbs.Extensions[:ACC(-1)],tbs.Extensions[ACC(-1)+1:]...) ; tbs.Raw = nil ; use asn1.Marshal(tbs) THEN return asn1.Marshal(tbs)"] ∧
+    Gen.buildPrecertPaths =
+      ["ERROR when !FIRST(preIssuer.ExtKeyUsage;==:ExtKeyUsageCertificateTransparency;true;false) & ERR asn1.Unmarshal(RES0 removeExtension(tbsData,OIDExtensionCTPoison)) == nil & ERR removeExtension(tbsData,OIDExtensionCTPoison) == nil & len(RES0 asn1.Unmarshal(RES0 removeExtension(tbsData,OIDExtensionCTPoison))) <= 0 & preIssuer != nil",
+       "ERROR when ERR asn1.Marshal(tbs) != nil & ERR asn1.Unmarshal(RES0 removeExtension(tbsData,OIDExtensionCTPoison)) == nil & ERR removeExtension(tbsData,OIDExtensionCTPoison) == nil & FIRST(preIssuer.ExtKeyUsage;==:ExtKeyUsageCertificateTransparency;true;false) & FIRST(preIssuer.Extensions;Id.Equal:OIDExtensionAuthorityKeyId;elem.Value;nil) != nil & FIRST(tbs.Extensions;Id.Equal:OIDExtensionAuthorityKeyId;index;-1) < 0 & len(RES0 asn1.Unmarshal(RES0 removeExtension(tbsData,OIDExtensionCTPoison))) <= 0 & preIssuer != nil",
+       "ERROR when ERR asn1.Marshal(tbs) != nil & ERR asn1.Unmarshal(RES0 removeExtension(tbsData,OIDExtensionCTPoison)) == nil & ERR removeExtension(tbsData,OIDExtensionCTPoison) == nil & FIRST(preIssuer.ExtKeyUsage;==:ExtKeyUsageCertificateTransparency;true;false) & FIRST(preIssuer.Extensions;Id.Equal:OIDExtensionAuthorityKeyId;elem.Value;nil) != nil & FIRST(tbs.Extensions;Id.Equal:OIDExtensionAuthorityKeyId;index;-1) >= 0 & len(RES0 asn1.Unmarshal(RES0 removeExtension(tbsData,OIDExtensionCTPoison))) <= 0 & preIssuer != nil",
+       "ERROR when ERR asn1.Marshal(tbs) != nil & ERR asn1.Unmarshal(RES0 removeExtension(tbsData,OIDExtensionCTPoison)) == nil & ERR removeExtension(tbsData,OIDExtensionCTPoison) == nil & FIRST(preIssuer.ExtKeyUsage;==:ExtKeyUsageCertificateTransparency;true;false) & FIRST(preIssuer.Extensions;Id.Equal:OIDExtensionAuthorityKeyId;elem.Value;nil) == nil & FIRST(tbs.Extensions;Id.Equal:OIDExtensionAuthorityKeyId;index;-1) < 0 & len(RES0 asn1.Unmarshal(RES0 removeExtension(tbsData,OIDExtensionCTPoison))) <= 0 & preIssuer != nil",
+       "ERROR when ERR asn1.Marshal(tbs) != nil & ERR asn1.Unmarshal(RES0 removeExtension(tbsData,OIDExtensionCTPoison)) == nil & ERR removeExtension(tbsData,OIDExtensionCTPoison) == nil & FIRST(preIssuer.ExtKeyUsage;==:ExtKeyUsageCertificateTransparency;true;false) & FIRST(preIssuer.Extensions;Id.Equal:OIDExtensionAuthorityKeyId;elem.Value;nil) == nil & FIRST(tbs.Extensions;Id.Equal:OIDExtensionAuthorityKeyId;index;-1) >= 0 & len(RES0 asn1.Unmarshal(RES0 removeExtension(tbsData,OIDExtensionCTPoison))) <= 0 & preIssuer != nil",
+       "ERROR when ERR asn1.Marshal(tbs) != nil & ERR asn1.Unmarshal(RES0 removeExtension(tbsData,OIDExtensionCTPoison)) == nil & ERR removeExtension(tbsData,OIDExtensionCTPoison) == nil & len(RES0 asn1.Unmarshal(RES0 removeExtension(tbsData,OIDExtensionCTPoison))) <= 0 & preIssuer == nil",
+       "ERROR when ERR asn1.Unmarshal(RES0 removeExtension(tbsData,OIDExtensionCTPoison)) != nil & ERR removeExtension(tbsData,OIDExtensionCTPoison) == nil",
+       "ERROR when ERR asn1.Unmarshal(RES0 removeExtension(tbsData,OIDExtensionCTPoison)) == nil & ERR removeExtension(tbsData,OIDExtensionCTPoison) == nil & len(RES0 asn1.Unmarshal(RES0 removeExtension(tbsData,OIDExtensionCTPoison))) > 0",
+       "ERROR when ERR removeExtension(tbsData,OIDExtensionCTPoison) != nil",
+       "WHEN ERR asn1.Marshal(tbs) == nil & ERR asn1.Unmarshal(RES0 removeExtension(tbsData,OIDExtensionCTPoison)) == nil & ERR removeExtension(tbsData,OIDExtensionCTPoison) == nil & FIRST(preIssuer.ExtKeyUsage;==:ExtKeyUsageCertificateTransparency;true;false) & FIRST(preIssuer.Extensions;Id.Equal:OIDExtensionAuthorityKeyId;elem.Value;nil) != nil & FIRST(tbs.Extensions;Id.Equal:OIDExtensionAuthorityKeyId;index;-1) < 0 & len(RES0 asn1.Unmarshal(RES0 removeExtension(tbsData,OIDExtensionCTPoison))) <= 0 & preIssuer != nil DO tbs <- asn1.Unmarshal(RES0 removeExtension(tbsData,OIDExtensionCTPoison)) ; tbs.Issuer.FullBytes = preIssuer.RawIssuer ; tbs.Extensions = append(tbs.Extensions,pkix.Extension{Critical:false,Id:OIDExtensionAuthorityKeyId,Value:FIRST(preIssuer.Extensions;Id.Equal:OIDExtensionAuthorityKeyId;elem.Value;nil)}) ; tbs.Raw = nil ; use asn1.Marshal(tbs) THEN return asn1.Marshal(tbs)",
+       "WHEN ERR asn1.Marshal(tbs) == nil & ERR asn1.Unmarshal(RES0 removeExtension(tbsData,OIDExtensionCTPoison)) == nil & ERR removeExtension(tbsData,OIDExtensionCTPoison) == nil & FIRST(preIssuer.ExtKeyUsage;==:ExtKeyUsageCertificateTransparency;true;false) & FIRST(preIssuer.Extensions;Id.Equal:OIDExtensionAuthorityKeyId;elem.Value;nil) != nil & FIRST(tbs.Extensions;Id.Equal:OIDExtensionAuthorityKeyId;index;-1) >= 0 & len(RES0 asn1.Unmarshal(RES0 removeExtension(tbsData,OIDExtensionCTPoison))) <= 0 & preIssuer != nil DO tbs <- asn1.Unmarshal(RES0 removeExtension(tbsData,OIDExtensionCTPoison)) ; tbs.Issuer.FullBytes = preIssuer.RawIssuer ; tbs.Extensions[FIRST(tbs.Extensions;Id.Equal:OIDExtensionAuthorityKeyId;index;-1)].Value = FIRST(preIssuer.Extensions;Id.Equal:OIDExtensionAuthorityKeyId;elem.Value;nil) ; tbs.Raw = nil ; use asn1.Marshal(tbs) THEN return asn1.Marshal(tbs)",
+       "WHEN ERR asn1.Marshal(tbs) == nil & ERR asn1.Unmarshal(RES0 removeExtension(tbsData,OIDExtensionCTPoison)) == nil & ERR removeExtension(tbsData,OIDExtensionCTPoison) == nil & FIRST(preIssuer.ExtKeyUsage;==:ExtKeyUsageCertificateTransparency;true;false) & FIRST(preIssuer.Extensions;Id.Equal:OIDExtensionAuthorityKeyId;elem.Value;nil) == nil & FIRST(tbs.Extensions;Id.Equal:OIDExtensionAuthorityKeyId;index;-1) < 0 & len(RES0 asn1.Unmarshal(RES0 removeExtension(tbsData,OIDExtensionCTPoison))) <= 0 & preIssuer != nil DO tbs <- asn1.Unmarshal(RES0 removeExtension(tbsData,OIDExtensionCTPoison)) ; tbs.Issuer.FullBytes = preIssuer.RawIssuer ; tbs.Raw = nil ; use asn1.Marshal(tbs) THEN return asn1.Marshal(tbs)",
+       "WHEN ERR asn1.Marshal(tbs) == nil & ERR asn1.Unmarshal(RES0 removeExtension(tbsData,OIDExtensionCTPoison)) == nil & ERR removeExtension(tbsData,OIDExtensionCTPoison) == nil & FIRST(preIssuer.ExtKeyUsage;==:ExtKeyUsageCertificateTransparency;true;false) & FIRST(preIssuer.Extensions;Id.Equal:OIDExtensionAuthorityKeyId;elem.Value;nil) == nil & FIRST(tbs.Extensions;Id.Equal:OIDExtensionAuthorityKeyId;index;-1) >= 0 & len(RES0 asn1.Unmarshal(RES0 removeExtension(tbsData,OIDExtensionCTPoison))) <= 0 & preIssuer != nil DO tbs <- asn1.Unmarshal(RES0 removeExtension(tbsData,OIDExtensionCTPoison)) ; tbs.Issuer.FullBytes = preIssuer.RawIssuer ; tbs.Extensions = append(tbs.Extensions[:FIRST(tbs.Extensions;Id.Equal:OIDExtensionAuthorityKeyId;index;-1)],tbs.Extensions[FIRST(tbs.Extensions;Id.Equal:OIDExtensionAuthorityKeyId;index;-1)+1:]...) ; tbs.Raw = nil ; use asn1.Marshal(tbs) THEN return asn1.Marshal(tbs)",
+       "WHEN ERR asn1.Marshal(tbs) == nil & ERR asn1.Unmarshal(RES0 removeExtension(tbsData,OIDExtensionCTPoison)) == nil & ERR removeExtension(tbsData,OIDExtensionCTPoison) == nil & len(RES0 asn1.Unmarshal(RES0 removeExtension(tbsData,OIDExtensionCTPoison))) <= 0 & preIssuer == nil DO tbs <- asn1.Unmarshal(RES0 removeExtension(tbsData,OIDExtensionCTPoison)) ; use asn1.Marshal(tbs) THEN return asn1.Marshal(tbs)"] := by
   repeat' apply And.intro
-  all_goals decide
+  all_goals first | rfl | decide
 
 /-! ## DER: encodings are unique -/
 
